@@ -65,6 +65,8 @@ const (
 	PrGetHit
 	PrC05ClearExempt
 	PrSketchFreshChecked
+	PrWaiterReleaseChecked // C15: a Wait blocked at a Clear's invocation was still in progress at its return
+	PrCloseWaiterAtSend    // C15: Close issued while a Wait was blocked on the full write buffer
 	NumProbes
 )
 
@@ -80,6 +82,7 @@ var ProbeNames = []string{
 	"sweep_evict_checked", "c05_checks", "exit_before_get_checked",
 	"metrics_checked", "empty_check_skipped", "empty_checked", "fresh_checked", "closed_probed",
 	"unguaranteed_collision", "deadline_exempt", "get_hit", "c05_clear_exempt", "sketch_fresh_checked",
+	"waiter_release_checked", "close_waiter_at_send",
 }
 
 var curProbes [NumProbes]int
